@@ -93,6 +93,44 @@ def gen_plan(rng, i: int, tier: str) -> dict:
     return plan
 
 
+def gen_concurrent_plan(rng, i: int, tier: str) -> dict:
+    """Round trips whose two halves overlap with other calls: (threads) several protects from caller threads of one process,
+    (async) blobs of different positions in one L0 unprotected at the same time on a cache that starts empty."""
+    from checks import threadpure
+
+    hash_name = offline.HASHES[i % 4]
+    secret = offline.SECRETS[(i // 4) % 3]
+    sid = offline.sid_shape(1 + i % 15, i // 15)
+    l0 = rng.randrange(330, 480)
+    ft = (l0 * 1024 + rng.randrange(0, 700)) * B + rng.randrange(B)
+    kind = ("threads", "async")[i % 2]
+    plan = {"seed": rng.getrandbits(31), "clock_ft": ft, "root_keys": [[i % 7, hash_name, secret]], "caller_sids": [sid],
+            "ctx": {"kind": "stub", "legs": 2, "sig": 16}, "dc": {"omit_l2_at_31": rng.random() < 0.5, "domain": "d.test", "forest": "forest.test"},
+            "delivery": rng.choice((None, {"mode": "rand", "seed": rng.getrandbits(16), "bias": "small"})), "latency_us": [1, rng.choice((50, 5000, 200000))],
+            "ops": [], "pmode": rng.choice(("offline", "online-seed")), "umode": "warm", "family": "concurrent-" + kind}
+    ops = plan["ops"]
+    offline_p = plan["pmode"] == "offline"
+    if offline_p:
+        ops.append({"op": "load_key", "rk": 0})
+    n = rng.randint(2, 3)
+    prot_idx = []
+    for k in range(n):
+        if kind == "async" and k:
+            ops.append({"op": "clock", "advance_ticks": rng.choice((B, 3 * B, 32 * B, 40 * B))})  # later blobs sit at later positions of the same L0
+        ops.append({"op": "protect", "fl": "thread" if kind == "threads" else rng.choice(("sync", "async")), "group": 1 if kind == "threads" else None,
+                    "sid": sid, "rk": 0 if offline_p else rng.choice((0, None)), "net": "offline" if offline_p else "online", "data": rng.choice((0, 7, 33))})
+        prot_idx.append(len(ops) - 1)
+    if kind == "threads":
+        plan["threads"] = threadpure.policy_for(i)
+        for k in prot_idx:
+            ops.append({"op": "unprotect", "fl": rng.choice(("sync", "async")), "net": "offline" if offline_p else "online", "blob": {"from_op": k, "relayout": False}})
+    else:
+        # oldest first, all at once, on a second cache that holds nothing yet
+        for k in prot_idx:
+            ops.append({"op": "unprotect", "fl": "async", "group": 2, "net": "online", "blob": {"from_op": k, "relayout": False}, "cache": "second"})
+    return plan
+
+
 def judge(plan, tr: P.Trace):
     probes: t.Dict[str, int] = {}
     rk = tr.root_keys[0]
@@ -160,21 +198,29 @@ class C01(common.Check):
             "another SID) after the clock moved; optional re-layout of the stored blob (ciphertext "
             "trailing the envelope); unprotect via offline root key | online as authorised principal with a fresh cache | warm shared cache "
             "(twice)], both flavours on either side, PRNG TCP segmentation, DC envelope shape knob (L2 key omitted at L2=31), 4 hashes x "
-            "{DH, P256, P384}, SIDs with 1..15 sub-authorities incl. 0 and 2^32-1, plaintext lengths 0..65536 (1 MiB in thorough). "
+            "{DH, P256, P384}, SIDs with 1..15 sub-authorities incl. 0 and 2^32-1, plaintext lengths 0..65536 (1 MiB in thorough). Plus round trips "
+            "whose halves overlap with other calls: 2..3 protects from caller threads of one process (deterministic thread scheduler), and blobs "
+            "of different positions of one L0 unprotected at the same time (async, oldest first) on a cache that starts empty. "
             "Non-trivial = every plan (distinct clock / path / shape combination); distinct = distinct plan.")
     components = {"client": "real (public API both flavours, KeyCache, RPC client, codecs, crypto)", "DC": "model (RefDC, independent derivation)",
                   "clock / entropy / network": "simulated", "security context": "stub (StubCtx)", "cross-check": "ref.cms decrypts every emitted blob"}
     assumptions = ["client and DC share the simulated clock in C01 plans (skew is C17's subject)"]
-    required_fired = ("mode_pub", "mode_nonce", "pos_l2_31", "relayout", "relayout_by_library", "roundtrip_ok", "pt_big", "two_protects_one_cache", "moving_clock", "l0_boundary_during_protect")
+    required_fired = ("mode_pub", "mode_nonce", "pos_l2_31", "relayout", "relayout_by_library", "roundtrip_ok", "pt_big", "two_protects_one_cache", "moving_clock", "l0_boundary_during_protect", "concurrent_threads", "concurrent_async", "thread_overlap")
 
     def cases(self, tier, seed):
         rng = prng.stream(seed, "C01")
         n = 2400 if tier == "quick" else 120000
-        return [gen_plan(rng, i, tier) for i in range(n)]
+        rng2 = prng.stream(seed, "C01", "concurrent")
+        return [gen_plan(rng, i, tier) for i in range(n)] + [gen_concurrent_plan(rng2, i, tier) for i in range(400 if tier == "quick" else 20000)]
 
     def run_case(self, case):
         tr = P.execute_plan(case)
         viol, probes = judge(case, tr)
+        if case.get("family") == "concurrent-threads":
+            probes["concurrent_threads"] = 1
+            probes["thread_overlap"] = tr.world.stats.get("toverlap", 0)
+        if case.get("family") == "concurrent-async":
+            probes["concurrent_async"] = 1
         if case.get("clock_tick_ns"):
             probes["moving_clock"] = 1
             d0 = case["clock_ft"] % (1024 * B)
@@ -185,6 +231,7 @@ class C01(common.Check):
                 "probes": probes, "vtime_ns": st.get("vtime_ns", 0)}
 
     def shrink(self, case):
+        yield from P.thread_shrinks(case)
         if case.get("delivery"):
             yield dict(case, delivery=None)
         if case.get("clock_tick_ns"):
